@@ -37,6 +37,8 @@ type Enum struct {
 	inCalib     bool
 	Unreachable []string
 	Policy      func(k int, n uint32) uint32 // index for draws beyond the plan (nil: 0)
+	OpaqueWords  []uint32    // words served to the first reads that no draw announced
+	OpaqueSeeded *mrand.Rand // source of further unannounced words (kept separate so that probes differ in one word only)
 	FailAtRead  int                          // >0: the random source fails at this Read call (after FailGot bytes)
 	FailGot     int
 	MaxDraws    int     // >0: abandon a run after this many draws
@@ -180,8 +182,14 @@ type RunOut struct {
 func (e *Enum) Run(plan []uint32, body func()) (out RunOut) {
 	t := &Tape{Chunk: e.Chunk, FailAt: e.FailAtRead, FailGot: e.FailGot}
 	t.Supply = func() (uint32, bool) {
-		// a read that no draw announced: serve a seeded word, remember it
+		// a read that no draw announced: serve the scripted opaque word if any, else a seeded word; remember it
 		t.Unannounced++
+		if t.Unannounced <= len(e.OpaqueWords) {
+			return e.OpaqueWords[t.Unannounced-1], true
+		}
+		if e.OpaqueSeeded != nil {
+			return e.OpaqueSeeded.Uint32(), true
+		}
 		return e.Rng.Uint32(), true
 	}
 	k := 0
